@@ -173,8 +173,8 @@ Qed.
    are exactly the reference iteration space with storage positions *)
 Theorem plain_nest_spec_gen : forall zs n tr zshape nz m lv, forallb plain_level lv = true ->
   forall i pt e z, length pt = i -> labinv i z ->
-  spec zs tr n i lv pt e (fst (run false tr zshape nz m lv i pt e z))
-  /\ labinv i (snd (run false tr zshape nz m lv i pt e z)).
+  spec zs tr n i lv pt e (fst (run tr zshape nz m lv i pt e z))
+  /\ labinv i (snd (run tr zshape nz m lv i pt e z)).
 Proof.
   intros zs n tr zshape nz m lv. induction lv as [|L lv IH]; intros Hpl i pt e z Lpt Hz.
   - cbn [run fst snd]. split.
@@ -197,7 +197,7 @@ Qed.
 
 Theorem plain_nest_spec : forall zs n tr zshape nz m lv, forallb plain_level lv = true ->
   forall i pt e z, length pt = i -> labinv i z ->
-  spec zs tr n i lv pt e (fst (run false tr zshape nz m lv i pt e z)).
+  spec zs tr n i lv pt e (fst (run tr zshape nz m lv i pt e z)).
 Proof. intros. apply plain_nest_spec_gen; auto. Qed.
 
 Lemma labinv0 : forall z, labinv 0 {| th_z := z; th_lab := lab0 |}.
@@ -207,7 +207,7 @@ Proof. intros z. split; [reflexivity|]. intros j _. left. reflexivity. Qed.
    registered trace file = [header if its rank was reached] ++ rows meeting rows_ok *)
 Theorem plain_nest_top : forall zs n tr zshape nz m lv keys m0 e z,
   forallb plain_level lv = true ->
-  let evs := fst (run false tr zshape nz m lv 0 [] e {| th_z := z; th_lab := lab0 |}) in
+  let evs := fst (run tr zshape nz m lv 0 [] e {| th_z := z; th_lab := lab0 |}) in
   let st' := exec n (init_state keys true m0) evs in
   let d := dr lv [([], e)] in
   m_lo st' = iota d
